@@ -255,10 +255,30 @@ func OCIHooks() *rapid.Generator[*rspec.Hooks] {
 			}
 			return rapid.SliceOfN(OCIHook(), 0, 3).Draw(t, name)
 		}
-		return &rspec.Hooks{
+		h := &rspec.Hooks{
 			Prestart: l("prestart"), CreateRuntime: l("createRuntime"), CreateContainer: l("createContainer"),
 			StartContainer: l("startContainer"), Poststart: l("poststart"), Poststop: l("poststop"),
 		}
+		// the same hook under several kinds (a hook configured for several stages) and twice
+		// within one list
+		if Uniform(t, "samehook", 3) == 0 {
+			lists := []*[]rspec.Hook{&h.Prestart, &h.CreateRuntime, &h.CreateContainer, &h.StartContainer, &h.Poststart, &h.Poststop}
+			shared := OCIHook().Draw(t, "shared")
+			n := 2 + Uniform(t, "nsame", 3)
+			for i := 0; i < n; i++ {
+				dst := lists[Uniform(t, "samelist", len(lists))]
+				cp := shared
+				cp.Args = append([]string(nil), shared.Args...)
+				cp.Env = append([]string(nil), shared.Env...)
+				if shared.Timeout != nil {
+					v := *shared.Timeout
+					cp.Timeout = &v
+				}
+				pos := Uniform(t, "samepos", len(*dst)+1)
+				*dst = append((*dst)[:pos:pos], append([]rspec.Hook{cp}, (*dst)[pos:]...)...)
+			}
+		}
+		return h
 	})
 }
 
